@@ -185,6 +185,22 @@ func init() {
 				{Pkg: "rules", Func: "verifC14Rule", Args: []int64{0}, Raw: true},
 				{Pkg: "rules", Func: "verifC14Rule", Args: []int64{1}, Raw: true},
 				{Pkg: "root", Func: "verifC14DNS"},
+				// answer equality under section-granular interleavings
+				{Pkg: "filterlist", Func: "verifC14AtomFile", Args: []int64{8}, Raw: true, Yield: true},
+				{Pkg: "filterlist", Func: "verifC14AtomFile", Args: []int64{16}, Raw: true, Yield: true},
+				{Pkg: "filterlist", Func: "verifC14AtomStorage", Args: []int64{0, 0}, Raw: true, Yield: true},
+				{Pkg: "filterlist", Func: "verifC14AtomStorage", Args: []int64{0, 1}, Raw: true, Yield: true},
+				{Pkg: "filterlist", Func: "verifC14AtomStorage", Args: []int64{1, 0}, Raw: true, Yield: true},
+				{Pkg: "filterlist", Func: "verifC14AtomStorage", Args: []int64{2, 1}, Raw: true, Yield: true},
+				{Pkg: "rules", Func: "verifC14AtomRule", Args: []int64{0}, Raw: true, Yield: true},
+				{Pkg: "rules", Func: "verifC14AtomRule", Args: []int64{1}, Raw: true, Yield: true},
+				{Pkg: "rules", Func: "verifC14AtomRule", Args: []int64{2}, Raw: true, Yield: true},
+				{Pkg: "rules", Func: "verifC14AtomRule", Args: []int64{3}, Raw: true, Yield: true},
+				{Pkg: "rules", Func: "verifC14AtomRule", Args: []int64{4}, Raw: true, Yield: true},
+				{Pkg: "root", Func: "verifC14AtomDNS", Args: []int64{0}, Raw: true, Yield: true},
+				{Pkg: "root", Func: "verifC14AtomDNS", Args: []int64{1}, Raw: true, Yield: true},
+				{Pkg: "root", Func: "verifC14AtomNet", Args: []int64{0}, Raw: true, Yield: true},
+				{Pkg: "root", Func: "verifC14AtomNet", Args: []int64{1}, Raw: true, Yield: true},
 			}
 		},
 		Setup: func(e *sym.Engine, st *sym.State, l *sym.Loaded) {
@@ -200,12 +216,12 @@ func init() {
 				return ""
 			}
 		},
-		MustReach: []string{"c14.storage", "c14.file", "c14.storagefile", "c14.rule", "c14.dns"},
+		MustReach: []string{"c14.storage", "c14.file", "c14.storagefile", "c14.rule", "c14.dns", "c14.atom.file", "c14.atom.storage", "c14.atom.rule", "c14.atom.dns", "c14.atom.net", "c14.atom.interleaved"},
 		Bounds: map[string]string{
-			"quick":    "two goroutines, one operation each, on four protected objects: RuleStorage.RetrieveRule (cold and warm cache, same and different index), FileRuleList.RetrieveRule (shared handle and read buffer), the storage over a file-backed list, NetworkRule.Match with a cold and a warm compiled pattern, DNSEngine.MatchRequest with the pooled request; for every pair of recorded path traces the solver decides whether two conflicting accesses can be unordered by happens-before in some schedule (the schedule is the solver's variable)",
+			"quick":    "two goroutines, one operation each, on four protected objects: RuleStorage.RetrieveRule (cold and warm cache, same and different index), FileRuleList.RetrieveRule (shared handle and read buffer), the storage over a file-backed list, NetworkRule.Match with a cold and a warm compiled pattern, DNSEngine.MatchRequest with the pooled request; for every pair of recorded path traces the solver decides whether two conflicting accesses can be unordered by happens-before in some schedule (the schedule is the solver's variable); answer equality: one operation (FileRuleList.RetrieveRule with symbolic line letters, RuleStorage.RetrieveRule over in-memory and file-backed lists cold and warm, NetworkRule.Match with five pattern kinds and symbolic URLs, DNSEngine.MatchRequest and NetworkEngine.Match over a real storage) is interrupted after its k-th mutex release (k an 8-bit solver variable) by the whole operation of a second goroutine on the same objects, and both answers must equal the sequential answers on fresh objects",
 			"thorough": "same as quick",
 		},
-		Outside:     []string{"more than two goroutines or more than one operation per goroutine", "control flow that depends on the other goroutine's writes beyond the two pre-states (cold, warm)", "answer equality under concurrency (only race freedom and exclusive use of the file offset / pooled object are decided)", "the Go scheduler and memory model, races inside library code (regexp, bufio, sync.Pool itself)", "a reported potential race is replayed with go test -race on a stress test; only a reproduced report is a violation"},
+		Outside:     []string{"more than two goroutines or more than one operation per goroutine", "control flow that depends on the other goroutine's writes beyond the two pre-states (cold, warm)", "interleavings in which both operations are split (A1 B1 A2 B2): only those where one operation runs whole inside a gap of the other are executed; together with race freedom this covers every schedule of operations with at most one critical section each and the nesting schedules of the others", "the Go scheduler and memory model, races inside library code (regexp, bufio, sync.Pool itself)", "a reported potential race is replayed with go test -race on a stress test; only a reproduced report is a violation"},
 		Assumptions: []string{"sync.Mutex/RWMutex give mutual exclusion and release->acquire ordering", "sync.Pool hands an object to one goroutine at a time between Get and Put", "locations are (object, first field) pairs; the file offset and the read buffer are locations of the file model"},
 		Rule:        "one trace per feasible path of one operation; one solver query per conflicting access pair and trace pair over integer clocks of the sync events",
 		Extra: func(rc *RunCtx) {
@@ -227,7 +243,7 @@ func init() {
 			hasWarm := map[string]bool{}
 			var order []string
 			for _, r := range rc.Results {
-				if r.Err != "" || r.Job.Vacuity {
+				if r.Err != "" || r.Job.Vacuity || r.Job.Yield {
 					continue
 				}
 				if len(r.Traces) == 0 {
